@@ -18,7 +18,7 @@ pub const ENTRY: Entry = Entry {
            framebuffer edge, 32767/32768, 65534..65537, aliases of in-bounds columns) : draw_iter streams of length 1, 2 and in/out/in \
            triples (thorough: all triples over a reduced lattice), fill_solid/fill_contiguous/clear over top_left in lattice^2 x size \
            lattice^2 restricted to valid embedded-graphics rectangles; on windows with non-trivial offsets inside larger framebuffers, \
-           all 8 orientations, both `batch` settings, checked and wrapping arithmetic builds. Oracle per case: no panic, terminates, Ok, \
+           all 8 orientations (set at init, and also changed at run time before the call), both `batch` settings, checked and wrapping arithmetic builds. Oracle per case: no panic, terminates, Ok, \
            no protocol violation, controller memory == canvas that drops out-of-bounds points (catches aliasing), and a differential \
            twin fed only the in-bounds items. Non-trivial = at least one out-of-bounds item or clipped rectangle.",
     assumptions: &[
@@ -271,6 +271,29 @@ fn run(ctx: &Ctx) -> Part {
                     return;
                 }
                 check_case(ctx, &mut acc, cfg, &op, &Checks::ALL, true);
+                // the same call after a run-time orientation change that keeps the logical size (mirror toggled /
+                // half turn): singles, triples and rectangles on the small displays
+                if p != Part2::Pairs && cfg.fb().0 < 1000 {
+                    let geo = cfg.geo();
+                    let (lw, lh) = geo.lsize();
+                    if let Op::FillContiguous { r, .. } = &op {
+                        if clipped_area(r, lw, lh) > 1 << 12 {
+                            return;
+                        }
+                    }
+                    let o2 = if n % 2 == 0 { cfg.orient ^ 4 } else { (cfg.orient & 4) | ((cfg.orient + 2) & 3) };
+                    let hist = [Op::SetOrientation(o2), op.clone()];
+                    acc.evaluations += 1;
+                    acc.transitions += 2;
+                    acc.traces += 1;
+                    if input_class(&op, lw, lh) != "in-bounds" {
+                        acc.nontrivial += 1;
+                    }
+                    if let Err((f, _)) = check_history(cfg, &hist, &Checks::ALL) {
+                        acc.violation(violation(ctx, cfg, &hist, "all", &f));
+                    }
+                    acc.count("after_orientation_change", 1);
+                }
                 n += 1;
                 if n == 1000 && acc.samples.len() < 2 {
                     acc.sample(json!({"cfg": cfg, "history": [op]}));
